@@ -245,7 +245,7 @@ OBLIGATIONS['C08'] = [
 # bounded checks on the real crate that run with EVERY check of the property (never counted as proved): the C01 stack/time
 # measurement, and the "refused with the documented panic" clauses - a necessity copy shows that SOME call without the
 # precondition panics, not that EVERY such call does; the probes call each refused case
-MEASUREMENTS = {'C01': ['c01-measure'], 'C19': ['probe builders'], 'C03': ['probe structures'], 'C04': ['probe structures'], 'C05': ['probe structures']}
+MEASUREMENTS = {'C01': ['c01-measure'], 'C02': ['probe structures', 'probe roundtrip', 'probe messages'], 'C06': ['probe structures'], 'C19': ['probe builders'], 'C03': ['probe structures'], 'C04': ['probe structures'], 'C05': ['probe structures']}
 
 # probe sets of the replay crate (concrete inputs on the real crate vs reference implementations written from the RFCs).
 # Used ONLY to look for a failing input after the verifier flagged the property (failed obligation, or undecidable on a
@@ -258,12 +258,12 @@ PROBES = {
 }
 
 # users of the core functions that the property statements cover as well
+# C02: the KDF-context types carry a protected header too.  The typed wrappers and signing / MAC / encryption helpers that put the
+# protected bytes into a structure have contracts about the WHOLE structure (they are obligations of C03-C06); what C02 says
+# about them - the protected slot is the retained byte string - is checked slot by slot by an always-on bounded probe instead
+# (MEASUREMENTS), so that a change to, say, the payload handling of `tbm` is not reported for C02.
 OBLIGATIONS['C02'] += [
     ('context::*::from_cbor_value', 'body'), ('context::*::to_cbor_value', 'body'),
-    ('sign::*::tbs_data', 'body'), ('sign::*::tbs_detached_data', 'body'), ('mac::*::tbm', 'body'), ('encrypt::*::decrypt', 'body'),
-    ('sign::*::verify_*', 'body'), ('mac::*::verify_tag', 'body'),
-    ('sign::*Builder::*create*signature', 'body'), ('sign::*Builder::*add_*signature', 'body'),
-    ('mac::*Builder::*create_tag', 'body'), ('encrypt::*Builder::*create_ciphertext', 'body'), ('encrypt::CoseRecipientBuilder::aad', 'body'),
 ]
 OBLIGATIONS['C03'] += [
     ('sign::*::verify_*', 'body'), ('sign::*Builder::*create*signature', 'body'), ('sign::*Builder::*add_*signature', 'body'),
@@ -283,19 +283,19 @@ OBLIGATIONS['C06'] += [('mac::*::*__nec_payload', 'nec'), ('encrypt::*::*__nec_*
 OBLIGATIONS['C17'] += [     # the decoders that classify labels through the registries
     ('cwt::ClaimsSet::from_cbor_value', 'body'), ('header::Header::from_cbor_value_nested', 'body'), ('key::CoseKey::from_cbor_value', 'body'),
 ]
-OBLIGATIONS['C06'] += [     # the wire hop between creation and verification
-    ('sign::*::to_cbor_value', 'body'), ('sign::*::from_cbor_value', 'body'), ('mac::*::to_cbor_value', 'body'), ('mac::*::from_cbor_value', 'body'),
-    ('encrypt::*::to_cbor_value', 'body'), ('encrypt::*::from_cbor_value', 'body'),
-    ('header::ProtectedHeader::from_cbor_bstr_nested', 'body'), ('header::ProtectedHeader::cbor_bstr', 'body'),
-    ('sign::*::tbs_data', 'body'), ('sign::*::tbs_detached_data', 'body'), ('mac::*::tbm', 'body'),
-    ('sign::sig_structure_data', 'body'), ('mac::mac_structure_data', 'body'), ('encrypt::enc_structure_data', 'body'),
-]
+# C06's wire hop (serialise the created message, parse it back, verify) is exercised end to end by an always-on bounded probe
+# (create -> to_vec -> from_slice -> verify, what both closures saw is compared); the encoders / decoders themselves are
+# obligations of C07, C09 and C11, so that a change to, say, what a decoder accepts is not reported for C06.
 for _p in ('C02', 'C07'):
     OBLIGATIONS[_p] += [('header::Header::is_empty', 'body'), ('header::ProtectedHeader::is_empty', 'body')]
 
 # properties about panics / termination only: a function that fails nothing but postconditions does not count (patterns listed
 # here would be exceptions; there are none: C01's own lemmas about decoded values are separate obligations)
 SAFETY_ONLY = {'C01': ()}
+
+# C19 is about what each builder call does to the value being built (whole-struct frame); what the signing / MAC / encryption
+# helpers hand to the caller's function is C06's and C03-C05's business, so the callees of the builders are not pulled in
+NO_CLOSURE = ('C19',)
 
 # items that must FAIL verification (vacuity / soundness canaries), checked on every run
 MUST_FAIL = ['vcanary::canary_false', 'vcanary::canary_axioms']
